@@ -442,12 +442,33 @@ def run_task(task):
             if op == 'full' and res:
                 if len(res[0][1]) != len(ch):
                     ctx.fail('full-read-length', got=len(res[0][1]), len_channel=len(ch))
+            if task['raw_ts']:
+                ctx.obligations += 1
+                d = _empty_vs_nonempty(ch, res, n)
+                if d:
+                    ctx.fail(d.pop('what'), **d)
+                ctx.discharged += 1
         finally:
             tf.close()
 
     st = explore(fn, max_paths=5000, time_budget=300)
     st.pop('wall_s', None)
     return st
+
+
+def _empty_vs_nonempty(ch, res, n):
+    """raw-timestamp reads: channel.dtype is (known finding) not the dtype of the reads, so 'empty results carry the same dtype as
+    non-empty ones' is decided directly: an empty window / slice result against a one-element read through the same call."""
+    import numpy as np
+    if n == 0:
+        return None
+    for label, arr in res:
+        if hasattr(arr, 'dtype') and np.size(arr) == 0 and label in ('read_data(o,l)', '[s:e]'):
+            ref = ch.read_data(0, 1) if label == 'read_data(o,l)' else ch[0:1]
+            if _dtype_of(ref) != _dtype_of(arr) or type(ref) is not type(arr):
+                return dict(what='empty-dtype-differs:' + ('window' if label == 'read_data(o,l)' else 'slice'), op=label,
+                            empty=str(_dtype_of(arr)), nonempty=str(_dtype_of(ref)))
+    return None
 
 
 def signature(c):
@@ -495,6 +516,10 @@ def replay(art):
                             empty=bool(np.size(arr) == 0))
         if op == 'full' and res and len(res[0][1]) != len(ch):
             return dict(sig=signature(dict(task=task, what='full-read-length')), got=len(res[0][1]), len_channel=len(ch))
+        if task['raw_ts']:
+            d = _empty_vs_nonempty(ch, res, n)
+            if d:
+                return dict(sig=signature(dict(task=task, what=d.pop('what'))), **d)
         return None
     finally:
         tf.close()
